@@ -647,6 +647,11 @@ class HandshakeSettings(object):
         if other.maxVersion < (3, 4):
             other.versions = [i for i in other.versions if i < (3, 4)]
 
+        # versions negotiated through the supported_versions extension must
+        # not exceed the configured maximum either
+        other.versions = [i for i in other.versions
+                          if i <= other.maxVersion]
+
     @staticmethod
     def _sanityCheckEMSExtension(other):
         """Check if settings for EMS are sane."""
